@@ -486,11 +486,14 @@ fn components() -> Value {
             "actix handlers, extractors, serde derives, ResponseError mapping (in-memory actix_web::test service, Json path)",
             "rotala::input::penelope::Penelope (add_quote, get_quotes, get_date, has_next)",
             "alator UistBroker and all default methods of Portfolio / CashOperations / BrokerOperations, UistBrokerLog",
-            "alator StaticWeightStrategy, DefaultTradingSchedule"
+            "alator StaticWeightStrategy, DefaultTradingSchedule",
+            "uistv1_client::TestClient (third twin of engine e2: C20, C08)",
+            "engine e5 (C08): the handlers and AppState of rotala/src/http/{uist,jura}.rs as a textual shadow copy compiled into the simulator (std::sync::Mutex -> the simulator's scheduler-aware mutex, crate:: -> rotala::); exchange, data feed and serde types are the library's own"
         ],
         "stub": [
             "uistv1_client::Client / jurav1_client::Client (reqwest), HttpServer, TCP: replaced by SimClient over the same handlers",
-            "TestClient: not used; SimClient eager/direct mode is behaviourally the same with the server state visible",
+            "TestClient is not the broker's client in engines e3/e4 (SimClient is: eager/direct mode is behaviourally the same, with the server state visible and the delivery schedulable)",
+            "OS thread scheduling and std::sync::Mutex (engine e5): replaced by baton passing under a seeded chooser",
             "Penelope::random (thread_rng), from_binance, source::*: replaced by the seeded market model",
             "`now` on the Direct path (AppState has no such method): harness-side copy of TestClient::now"
         ]
@@ -504,7 +507,7 @@ fn assumptions(prop: &str) -> Vec<String> {
         "the hooks behind cargo feature `verif` are read-only (snapshots, accessors) except the positions-order hook, which only imposes a key order the real HashMap could have produced".to_string(),
     ];
     if matches!(prop, "C02" | "C03" | "C17" | "C01") {
-        v.push("orders carry finite positive prices and unique positive quantities (the quantity is the tag that attributes Uist fills)".to_string());
+        v.push("orders carry finite positive prices and positive quantities (orders are identified by id from the snapshots; equal-looking orders are generated on purpose)".to_string());
     }
     v
 }
